@@ -61,7 +61,11 @@ def run(chk):
     n = 240 if thorough else 60
     for k in range(n):
         cfg = W.random_config(rng, {"raw_mode": 1} if k % 10 == 9 else None)
-        if k % 20 == 12:
+        if k % 20 == 16:
+            # the user slot of a session that ended is given, more than 60 s later, to a new client program: a fresh session in every respect
+            cfg = W.random_config(rng, {"raw_mode": 0, "second_relay": {}})
+            jobs.append((chk.seed * 2000 + k, cfg, {}, None, 4, False, "reuse"))
+        elif k % 20 == 12:
             cfg = W.random_config(rng, {"raw_mode": 1 if k % 40 == 12 else 0})
             jobs.append((chk.seed * 2000 + k, cfg, {}, None, 0, False, "silence"))
         elif k % 10 == 6:
